@@ -75,7 +75,7 @@ def for_property(prop, tier):
     if prop == "C03":
         return [motion("frames", tier), motion("exact", tier)]
     if prop == "C02":
-        return [extrusion("e", tier), deferred(tier)]
+        return [extrusion("e", tier), deferred(tier), motion("exact", tier)]
     if prop == "C04":
         return [extrusion("e", tier), extrusion("inch", tier)]
     if prop == "C05":
